@@ -10,7 +10,7 @@ use std::process::{Command, Stdio};
 
 pub fn classes_of(prop: &str) -> &'static [&'static str] {
     match prop {
-        "C01" => &["snapshot_read", "fractured_or_stale_read"],
+        "C01" => &["snapshot_read", "fractured_or_stale_read", "realtime", "horizon"],
         "C04" => &["lost_update", "aborted_visible", "unjustified_abort", "unexpected_error"],
         "C05" => &["fractured_or_stale_read", "snapshot_read", "realtime", "horizon", "lost_commit", "seq_overlap", "read_error"],
         "C17" => &["stuck", "panic"],
@@ -299,6 +299,9 @@ pub fn run_conc(run: &mut Run, a: &Args, prop: &str, count: usize, procs: usize)
 pub fn run(a: &Args, prop: &str) -> i32 {
     let mut run = Run::new(prop, a.tier, a.seed, "exploration");
     crate::scenarios::run_for(&mut run, prop);
+    if prop == "C05" {
+        crate::matrix::run_for(&mut run, prop);
+    }
     let count = match prop {
         "C17" => a.tier.pick(120, 1500),
         _ => a.tier.pick(160, 2500),
